@@ -333,3 +333,55 @@ Theorem logql_log_correct_all :
     log_correct3 re_match parse_float json_get hash_labels tie q c d.
 Proof. exact logql_log_correct3_proof. Qed.
 Print Assumptions logql_log_correct_all.
+
+(* ---- round 5: line_format pipelines inside the failing-input search, and their Plan(script, false) ---- *)
+(* the boolean oracles that judge EVERY case of the search since round 5 (reference log_rows3: the line travels with the state;
+   = log_rows2 without line_format, log_rows3_is_log_rows2_without_line_format) decide the specification *)
+Theorem spec_oracle3_decides : forall (RG : ReGroups) re_match parse_float json_get hash_labels q c d res,
+  sem3_b re_match parse_float json_get hash_labels q c d res = true
+  <-> logql_sem3 re_match parse_float json_get hash_labels q c d res.
+Proof. exact @sem3_b_iff. Qed.
+Print Assumptions spec_oracle3_decides.
+Theorem spec_oracle3_bp_decides : forall (RG : ReGroups) re_match parse_float json_get hash_labels q c d res,
+  sem3_bp_b re_match parse_float json_get hash_labels q c d res = true
+  <-> Permutation res (log_rows3 re_match parse_float json_get hash_labels q c d) /\ ts_sorted (c_asc c) res.
+Proof. exact @sem3_bp_b_iff. Qed.
+Print Assumptions spec_oracle3_bp_decides.
+(* Plan(script, false).Process of a fragment-3 pipeline (the statement without MainLimitPlanner whose rows feed the in-process
+   engine): every line the pipeline lets through - the FORMATTED line, with its current labels -, whatever ctx.Limit says,
+   sorted by timestamp in the query direction. (bp_correct2 written out over log_rows3.) *)
+Theorem logql_breakpoint_plan_line_format :
+  forall (RG : ReGroups) re_match parse_float json_get hash_labels (tie : forall A : Type, list A -> list A),
+    (forall A (l : list A), Permutation (tie A l) l) ->
+    forall q c d, in_fragment3 q = true -> oracle_ok re_match parse_float q -> ctx_ok c = true -> db_ok c d ->
+    width_guard q = true -> absent_guard re_match q d ->
+    exists sel rows outs,
+      bp_select q c = Some sel
+      /\ eval re_match parse_float json_get hash_labels tie (to_sqldb c d) sel = Some rows
+      /\ map row_out rows = map Some outs
+      /\ Permutation outs (log_rows3 re_match parse_float json_get hash_labels q c d)
+      /\ ts_sorted (c_asc c) outs.
+Proof. exact logql_breakpoint_plan_line_format_proof. Qed.
+Print Assumptions logql_breakpoint_plan_line_format.
+(* the hypotheses are those of logql_log_line_format (met: logql_log_line_format_guards_met, same query, context and database);
+   the breakpoint statement of that query evaluates (SqlEval) to the formatted line *)
+Example logql_breakpoint_plan_line_format_evaluates :
+  match bp_select ex4_query ex_ctx with
+  | Some sel => option_map (map row_out) (eval (RG := no_groups) ex4_re no_float ex2_json ex2_hash tie_id (to_sqldb ex_ctx ex2_db) sel)
+  | None => None end
+  = Some [Some {| o_fp := 102; o_labels := [("b", "1"); ("lvl", "info")]; o_line := "info: done {x}"; o_ts := 1700000000000000005 |}].
+Proof. exact line_format_bp_evaluates. Qed.
+(* ... and over the three fragments in one statement *)
+Theorem logql_breakpoint_plan_all :
+  forall (RG : ReGroups) re_match parse_float json_get hash_labels (tie : forall A : Type, list A -> list A),
+    (forall A (l : list A), Permutation (tie A l) l) ->
+    forall q c d, in_fragment q || in_fragment2 q || in_fragment3 q = true -> oracle_ok re_match parse_float q -> ctx_ok c = true ->
+    db_ok c d -> width_guard q = true -> absent_guard re_match q d ->
+    exists sel rows outs,
+      bp_select q c = Some sel
+      /\ eval re_match parse_float json_get hash_labels tie (to_sqldb c d) sel = Some rows
+      /\ map row_out rows = map Some outs
+      /\ Permutation outs (log_rows3 re_match parse_float json_get hash_labels q c d)
+      /\ ts_sorted (c_asc c) outs.
+Proof. exact logql_breakpoint_plan_all_proof. Qed.
+Print Assumptions logql_breakpoint_plan_all.
